@@ -219,6 +219,12 @@ def factory_denotation(f: Func, slots: Dict[str, str], index=None) -> Dict[str, 
     the order of the pipeline calls, the arguments of the required-key check and the returned
     partial application, locals expanded, comprehension variables and role slots normalised"""
     w = walk_function(f.node)
+    if index is not None:
+        # normal form: helpers the pinned tree did not have (`_nonprotocol_keys(function)`,
+        # `partition_parameter_names(..)`) read through, one-pass partition loops as the two
+        # comprehensions they build
+        from ..view import view
+        w = view(index, f)[1]
 
     def rebound(e: ast.AST) -> ast.AST:
         """parameters re-assigned once before use (`kwargs = select_kwargs(kwargs, ..)`)"""
